@@ -17,7 +17,7 @@ RULE = ("the C01 (link integrity; lite as transmitter, as receiver, on both ends
 REQUIRED = {"bus_bytes": 300, "peer_read": 300, "buffer_unmodified": 300, "return_truth": 300,
             "no_leak": 300, "rx_entry_pipe0": 100, "status_attrs": 1000, "read": 100,
             "load_ack": 500, "lite_cfg_snapshot": 1000, "lite_cfg_getter": 1000}
-BUDGET = {"quick": 150, "thorough": 500}
+BUDGET = {"quick": 480, "thorough": 900}
 
 KINDS = [("lite", "full"), ("full", "lite"), ("lite", "lite")]
 
